@@ -78,10 +78,12 @@ type peerSpec struct {
 	asyncN   int    // frames per asynchronous writer
 	wakes    int    // Wake requests issued by a user goroutine
 	udp      bool
+	flood    bool // the loop is held inside the first OnTraffic until the asynchronous writers have issued everything
 	// runtime
 	delivered int64 // bytes the handler has been given (for lock-step peers)
 	laddr     string
 	done      chan struct{}
+	hold      chan struct{} // if set, the peer waits for it after dialling before it sends anything
 }
 
 type vconn struct {
@@ -98,6 +100,8 @@ type vconn struct {
 	asyncCbs  int32 // asynchronous writes issued whose callback has not run yet
 	closed    bool
 	lazyLeft  int
+	dupFd     int           // descriptor obtained through Conn.Dup (ours to close), 0 if none
+	floodGate chan struct{} // closed when the asynchronous writers have issued all their requests
 }
 
 type vhandler struct {
@@ -181,7 +185,7 @@ func (h *vhandler) OnOpen(c Conn) (out []byte, action Action) {
 		h.rec.emit("OpenUnknown", "h", hd, "g", g, "raddr", raddr, "laddr", laddr)
 		return nil, Close
 	}
-	vc := &vconn{spec: sp, c: c, h: hd, rng: vsup.NewRng(sp.seed), lazyLeft: 3}
+	vc := &vconn{spec: sp, c: c, h: hd, rng: vsup.NewRng(sp.seed), lazyLeft: 3, floodGate: make(chan struct{})}
 	h.conns.Store(c, vc)
 	h.rec.emit("Open", "c", sp.id, "h", hd, "g", g, "raddr", raddr, "laddr", laddr, "fd", c.Fd(), "loop", c.(*conn).loop.idx)
 	atomic.AddInt32(&h.opened, 1)
@@ -189,9 +193,7 @@ func (h *vhandler) OnOpen(c Conn) (out []byte, action Action) {
 		// a descriptor handed to the user: the framework must never close it
 		if fd, err := c.Dup(); err == nil {
 			h.rec.emit("UserDup", "fd", fd, "c", sp.id)
-			h.dupMu.Lock()
-			h.userDups = append(h.userDups, fd)
-			h.dupMu.Unlock()
+			vc.dupFd = fd
 		}
 	}
 	if sp.openOut >= 0 {
@@ -225,9 +227,20 @@ func (h *vhandler) OnOpen(c Conn) (out []byte, action Action) {
 }
 
 // closeUserDups closes the descriptors obtained through Dup, checking that they are still ours.
-func (h *vhandler) closeUserDups() {
+func (h *vhandler) closeUserDups() { h.closeDups(false) }
+
+func (h *vhandler) closeDups(final bool) {
 	h.dupMu.Lock()
 	defer h.dupMu.Unlock()
+	h.conns.Range(func(_, v any) bool { // connections that never closed
+		if vc := v.(*vconn); vc.dupFd > 0 && !final {
+			return true
+		} else if vc.dupFd > 0 {
+			h.userDups = append(h.userDups, vc.dupFd)
+			vc.dupFd = 0
+		}
+		return true
+	})
 	for _, fd := range h.userDups {
 		var st unix.Stat_t
 		err := unix.Fstat(fd, &st)
@@ -245,6 +258,9 @@ func (h *vhandler) asyncWriter(vc *vconn, w int) {
 	rng := vsup.NewRng(sp.seed*31 + uint64(w))
 	for k := 0; k < sp.asyncN; k++ {
 		body := []int{0, 1, 37, 500, 4000, 20000, 70000}[rng.Intn(7)]
+		if sp.flood {
+			body = rng.Intn(2)
+		}
 		f := mkFrame(sp.id, w, k, body)
 		a := h.newReq()
 		cb := func(c Conn, err error) error {
@@ -269,7 +285,7 @@ func (h *vhandler) asyncWriter(vc *vconn, w int) {
 		} else {
 			atomic.AddInt32(&vc.asyncCbs, -1)
 		}
-		if rng.Intn(4) == 0 {
+		if rng.Intn(4) == 0 && !sp.flood {
 			time.Sleep(time.Duration(rng.Intn(300)) * time.Microsecond)
 		}
 	}
@@ -300,6 +316,7 @@ func (h *vhandler) waker(vc *vconn) {
 // asyncDone: the last asynchronous goroutine of a connection wakes it so that the handler can finish.
 func (h *vhandler) asyncDone(vc *vconn) {
 	if atomic.AddInt32(&vc.asyncLeft, -1) == 0 {
+		close(vc.floodGate)
 		a := h.newReq()
 		h.rec.emit("AIssue", "a", a, "c", vc.spec.id, "kind", "Wake", "w", 0, "k", 0, "len", 0, "g", vsup.Goid())
 		sp := vc.spec
@@ -370,6 +387,12 @@ func (h *vhandler) OnTraffic(c Conn) Action {
 	}
 	h.rec.emit("Traffic", "c", sp.id, "g", g, "ib", c.InboundBuffered(), "ob", c.OutboundBuffered(), "raddr", ra, "laddr", la)
 	atomic.StoreInt64(&sp.delivered, int64(vc.consumed+c.InboundBuffered()))
+	if sp.flood && vc.callbacks == 1 {
+		select { // hold the loop so that the requests pile up in its queues
+		case <-vc.floodGate:
+		case <-time.After(10 * time.Second):
+		}
+	}
 	h.readOps(vc, c)
 	action := None
 	if sp.closeAt >= 0 && vc.consumed >= sp.closeAt && !vc.closed {
@@ -624,6 +647,22 @@ func (h *vhandler) OnClose(c Conn, err error) Action {
 	vc := v.(*vconn)
 	h.rec.emit("Close", "c", vc.spec.id, "g", g, "err", errClass(err), "ib", c.InboundBuffered(), "consumed", vc.consumed)
 	defer atomic.AddInt32(&h.closedN, 1) // after the event is in the log (the scenario's quiescence test reads it)
+	if vc.dupFd > 0 {
+		// our duplicate must have survived the framework's close of its own descriptor; give it up now so
+		// that the peer sees the end of the connection
+		h.dupMu.Lock()
+		h.userDups = append(h.userDups, vc.dupFd)
+		h.dupMu.Unlock()
+		vc.dupFd = 0
+		// keep it a little beyond the framework's own close of the connection (a duplicate that outlives
+		// the connection keeps the open file description, and with it any forgotten epoll registration, alive)
+		h.asyncWG.Add(1)
+		go func() {
+			defer h.asyncWG.Done()
+			time.Sleep(25 * time.Millisecond)
+			h.closeUserDups()
+		}()
+	}
 	if vc.rng.Intn(4) == 0 {
 		// a farewell written from OnClose (best effort; it may well fail on a reset connection)
 		n, werr := c.Write([]byte("bye"))
